@@ -1117,12 +1117,29 @@ def g7(ctx, res):
     vfe = V(ctx, fe, keep=("required",)).body
     waived = None
     reads_explicit = has("getattr(MV_e, 'required', MV__)", vfe)
-    for b in builders(vfe):
-        gts = " ".join(b.guard_texts())
-        if "default" in gts or "defaulted" in gts or "not in" in gts:
-            waived = True
-    if waived is None and reads_explicit:
-        waived = False
+    # (1) the JSON names of the defaulted properties, (2) the explicit list filtered by them
+    bs = builders(V(ctx, fe, keep=("required", "defaulted")).body) + builders(vfe)
+    defaulted_exprs = set()
+    for b in bs:
+        if isinstance(b.target, ast.Tuple) and len(b.target.elts) == 2 and norm(b.iter).endswith(".items()"):
+            nm, pr = norm(b.target.elts[0]), norm(b.target.elts[1])
+            conds = [c for t, pol in b.guards for c in flatten_guard(t, pol)]
+            if len(conds) == 1 and (np_atom(*conds[0]) or (None, None)) == (f"{pr}.element.default", False) \
+                    and norm(b.elt) == f"{pr}.source or {nm}":
+                if b.name:
+                    defaulted_exprs.add(b.name)
+                if isinstance(b.node, (ast.ListComp, ast.SetComp, ast.GeneratorExp)):
+                    defaulted_exprs.add(norm(b.node))
+    filtered = False
+    for b in bs:
+        if isinstance(b.target, ast.Name) and norm(b.elt) == b.target.id and ("required" in norm(b.iter)):
+            gt = b.guard_texts()
+            if len(gt) == 1 and any(gt[0] in (f"not {b.target.id} in {d}", f"{b.target.id} not in {d}") for d in defaulted_exprs):
+                filtered = True
+    if defaulted_exprs and filtered:
+        waived = True
+    elif reads_explicit:
+        waived = False if not defaulted_exprs or not any("required" in norm(b.iter) and b.guards for b in bs) else None
     res.judge(waived, fe, "explicit required names are waived for properties that declare a default",
               reason="`required` given as a keyword list (what the parser produces for untyped schemas) demands a defaulted "
                      "property although the same schema as a class does not: Element(required=['a'], properties={'a': "
